@@ -84,8 +84,26 @@ def _lock():
     return f
 
 
+_HELD = []   # the check holds the lock over translate + build + audit (one unit: generated files belong to one run)
+
+
+def hold_build_lock():
+    if not _HELD:
+        _HELD.append(_lock())
+
+
+def release_build_lock():
+    while _HELD:
+        _HELD.pop().close()
+
+
+class _NoLock:
+    def close(self):
+        pass
+
+
 def lake_build(targets: list[str], timeout: int = 3000) -> BuildResult:
-    lock = _lock()
+    lock = _NoLock() if _HELD else _lock()
     try:
         p = subprocess.run(
             ["lake", "build", *targets], cwd=LEAN_DIR, capture_output=True, text=True, timeout=timeout,
@@ -163,7 +181,7 @@ def audit_axioms(pid: str, props_modules, theorems: list[str]) -> dict[str, list
         "".join(f"import {m}\n" for m in ([props_modules] if isinstance(props_modules, str) else props_modules))
         + "".join(f"#print axioms {t}\n" for t in theorems)
     )
-    lock = _lock()
+    lock = _NoLock() if _HELD else _lock()
     try:
         p = subprocess.run(["lake", "env", "lean", str(f)], cwd=LEAN_DIR, capture_output=True, text=True, timeout=1200)
     finally:
